@@ -148,6 +148,7 @@ end prune
         -> ids=<buffer id per open> free=<sorted buffer ids left in the pool>
     pool.series <strategy> <nstores> <openErr idx,… | -> <abort>  ProxyStore.Series with ShardInfo over fake stores
         -> puts=<times the buffer of store i was put back | x (never taken)>
+    pool.series2 <strategy> <nstores> <openErr|-> <abort> <recvErr store idx,…|-> <limit>   … with Recv failures / Limit
 -/
 section pool
 open Thanos.Pool
@@ -246,6 +247,20 @@ def handlePool : List String → Option String
         -- took a buffer that is never returned, later stores are never reached
         if i < j then toString (putsOf idemClose 1) else if i = j then "0" else "x"
       | _, _ => if errs.contains i then "0" else toString (putsOf idemClose 2)
+    pure s!"puts={joinWith "," ((List.range n).map cell)}"
+  | ["pool.series2", _strategy, n, openErr, abort, _recvErr, _limit] => do
+    -- the same request with Recv failures and a Limit: how often the loser tree closes a response
+    -- set now depends on the merge, but with an idempotent Close every buffer that was taken for an
+    -- opened store still comes back exactly once (deferred Close) — `putsOf true k = 1` for k ≥ 1
+    let n ← parseNat? n
+    let errs ← parseNats? ',' openErr
+    let abort ← parseBool? abort
+    if !idemClose then none else
+    let firstErr := (List.range n).find? (fun i => errs.contains i)
+    let cell (i : Nat) : String :=
+      match abort, firstErr with
+      | true, some j => if i < j then toString (putsOf idemClose 1) else if i = j then "0" else "x"
+      | _, _ => if errs.contains i then "0" else toString (putsOf idemClose 1)
     pure s!"puts={joinWith "," ((List.range n).map cell)}"
   | _ => none
 
